@@ -770,6 +770,12 @@ func c05Lexer(c *Ctx) {
 			okTxt = true
 		}
 	})
+	// parsing keeps no state between (or across concurrent) calls: no package-level variable is written
+	{
+		ps, _ := parseScope(t)
+		sharedWriteObligations(c, "PARSE-STATE", "parse", ps, false)
+		r.Floor("PARSE-STATE", 100)
+	}
 	r.Ob("LEX-COVER", "Lexer.emit delivers exactly input[start:pos]", t.Pos(emit.Pos()), okTxt, "consecutive items tile the input")
 }
 
